@@ -70,4 +70,8 @@ PROPS = {
         {"id": "C13", "cpu": 4, "quick_n": 480, "thorough_n": 6000, "quick_s": 75, "thorough_s": 1500, "timeout": 300,
          "rule": "operation (commit existing/new branch, merge ff / --no-ff / 3-way, prune) via in-process CLI on a generated pre-state; every prefix of the recorded write log (object store + ref store) materialised as a crash state, checked for I1-I4, operation re-run and compared with the uninterrupted run; error and disk-full modes fail every write position; every case is non-trivial (>=2 writes); distinct by plan hash"},
     ]},
+    "C14": {"level": "fault_enumeration", "profiles": [
+        {"id": "C14", "cpu": 2, "quick_n": 400, "thorough_n": 40000, "quick_s": 75, "thorough_s": 1200, "timeout": 300,
+         "rule": "transaction staging 1..4 branches (new/existing) via CLI; `transaction commit|discard` with a crash after every write prefix and a failure at every store write, re-run; sequences commit;commit, commit;discard; non-trivial = >=2 staged branches; distinct by plan hash"},
+    ]},
 }
